@@ -37,6 +37,8 @@ class Server:
         self.eof = False
         self.next_id = 100
         self.push_diag = push_diag
+        self.hold = None            # predicate on a server→client request: keep it unanswered until release_held()
+        self.held_requests = []
         threading.Thread(target=self._reader, daemon=True).start()
 
     def _reader(self):
@@ -60,7 +62,10 @@ class Server:
                     self.seq += 1
                     if "method" in m and "id" in m:
                         self.server_requests.append(m["method"])
-                        self._send({"jsonrpc": "2.0", "id": m["id"], "result": None})
+                        if self.hold is not None and self.hold(m):
+                            self.held_requests.append(m["id"])
+                        else:
+                            self._send({"jsonrpc": "2.0", "id": m["id"], "result": None})
                     elif "method" in m:
                         self.notifications += 1
                         if m["method"] == "textDocument/publishDiagnostics":
@@ -131,6 +136,20 @@ class Server:
         resp = self.wait(1, timeout)
         self.notify("initialized", {})
         return resp
+
+    def release_held(self):
+        with self.cv:
+            ids, self.held_requests = self.held_requests, []
+        for i in ids:
+            self._send({"jsonrpc": "2.0", "id": i, "result": None})
+        return len(ids)
+
+    def wait_held(self, n=1, timeout=30.0):
+        end = time.time() + timeout
+        with self.cv:
+            while len(self.held_requests) < n and time.time() < end and not self.eof:
+                self.cv.wait(0.05)
+            return len(self.held_requests) >= n
 
     def wait_ready(self, timeout=90.0):
         """the first request after `initialized` is only answered when the initialization task is over"""
